@@ -304,14 +304,63 @@ class BodyInfo:
         starts = [b for _, b in edges]
         return self.body.reach(starts, avoid_blocks=avoid_blocks, stop_blocks=stop_blocks, avoid_edges=avoid_edges)
 
-    def guarded_by(self, block, edges, since=None):
-        """Every path from entry (or from block `since`'s successors) to `block` takes one of `edges`."""
+    def guarded_by(self, block, edges, since=None, _depth=0):
+        """Every path from entry (or from block `since`'s successors) to `block` takes one of `edges`.
+
+        Refinement through boolean locals (`let ok = matches!(..); if ok {..}`, `let all = a == b;`):
+        if `block` is guarded by the `v` edge of a switch on a local all of whose definitions are
+        boolean constants, and every definition site assigning `v` is itself guarded by `edges`,
+        then so is `block` (the last definition executed on the path assigned `v`)."""
         body = self.body
+        edges = list(edges)
         if since is None:
             r = body.reach([0], avoid_edges=edges)
         else:
             r = body.reach(body.succs(since), avoid_edges=edges)
-        return block not in r
+        if block not in r:
+            return True
+        if since is not None or _depth >= 2 or not edges:
+            return False
+        for e, defs in self.bool_phi_switches:
+            for lab in (True, False):
+                ed = self.edge(e, lab)
+                if not ed or ed in edges:
+                    continue
+                mine = [b for b, v in defs if v == lab]
+                if not mine:
+                    continue
+                if block in body.reach([0], avoid_edges=[ed]):
+                    continue   # not guarded by this boolean edge
+                if all(self.guarded_by(db, edges, _depth=_depth + 1) for db in mine):
+                    return True
+        return False
+
+    @property
+    def bool_phi_switches(self):
+        """[(switch entry, [(def block, bool value)])] for switches on a local whose live definitions
+        are all boolean constants."""
+        c = getattr(self, "_bool_phi", None)
+        if c is not None:
+            return c
+        out = []
+        body = self.body
+        for e in self.switches:
+            s = e["subject"]
+            if e["kind"] != "bool" or s[0] != "phi":
+                continue
+            defs = []
+            ok = True
+            for d in body.defs.get(s[1], []):
+                if d[0] not in body.reachable or body.is_cleanup(d[0]):
+                    continue
+                if d[2] == "assign" and d[3]["k"] == "use" and "c" in d[3]["op"] and d[3]["op"]["c"].get("v") is not None:
+                    defs.append((d[0], bool(int(d[3]["op"]["c"]["v"])) != e["negated"] if False else bool(int(d[3]["op"]["c"]["v"]))))
+                else:
+                    ok = False
+            if ok and defs:
+                out.append((e, defs))
+        self._bool_phi = out
+        return out
 
     def must_reach(self, starts, goal_blocks, exit_blocks):
         """Every path from `starts` hits a goal block before any exit block: i.e. no exit block is
